@@ -1278,7 +1278,10 @@ WHAT = {'stub history': 'a case run after others (one executor, shared environme
         'real history': 'a case run after others in one process did not write the probes / get the identifier it gets in a fresh process',
         'suite contents': 'a case run in the suite, alone with --suite and alone beside exactly.suite did not give the same identifier '
                           'and markers; or a marker of a file other than the case and its own suite was written; or suite markers '
-                          'were not before the case\'s (after, in cleanup); or a passing case did not write every marker once'}
+                          'were not before the case\'s (after, in cleanup); or a passing case did not write every marker once; or the act '
+                          'phase executed was not the suite\'s act lines followed by the case\'s (SYNTAX_ERROR when the actor in force '
+                          'does not take that many); or the identifier is not one the status in force (suite\'s conf first, then the '
+                          'case\'s) allows'}
 
 
 def search(ctx, res):
